@@ -45,7 +45,7 @@ func (c *histCfg) alphabet(h []Op) []Op {
 	for _, o := range h {
 		if o.Kind == "scope" {
 			names = append(names, o.Bind)
-			if o.Ctx == "cancel" {
+			if o.Ctx == "cancel" || o.Ctx == "pcancel" {
 				hasCancel[o.Bind] = true
 			}
 		}
